@@ -234,6 +234,7 @@ class Engine(ExprMixin, CallMixin, SpecMixin, StmtMixin):
         parts = c.qualname.split(".")
         try:
             fn = self.find_function(c.file, c.qualname)
+            self.cur_fn_node = fn
             res.sha = self.function_sha(c.file, fn)
             self.module_consts = self.collect_module_consts(c.file)
             tree, _ = self.load_module(c.file)
